@@ -9,8 +9,8 @@ cost at most `log2 (size + n) + 1` buffer allocations. -/
 namespace CC.Properties.C20Deque
 open CC CC.Properties.C05
 
-/-- **size_le_capacity**, **capacity_pow2**, buffer block ≥ capacity, capacity ≤ `MAX_POW_TWO` -/
-theorem size_le_capacity (d : Deque) (hi : d.Inv) : d.size ≤ d.cap ∧ d.cap ≤ d.buf.length :=
+/-- **size_le_capacity**, **capacity_pow2**, buffer block = exactly `capacity` slots, capacity ≤ `MAX_POW_TWO` -/
+theorem size_le_capacity (d : Deque) (hi : d.Inv) : d.size ≤ d.cap ∧ d.buf.length = d.cap :=
   ⟨hi.2.2.2.2.2, hi.2.2.1⟩
 
 theorem capacity_pow2 (d : Deque) (hi : d.Inv) : (∃ k, d.cap = 2 ^ k ∧ k ≤ 31) ∧ 1 ≤ d.cap := by
@@ -22,16 +22,16 @@ theorem capacity_pow2 (d : Deque) (hi : d.Inv) : (∃ k, d.cap = 2 ^ k ∧ k ≤
   · exact h
 
 /-- … in every state any history (any arguments, any refusal schedule) can reach from a constructed
-deque of any configured capacity -/
-theorem reachable_invariants (confCap : Nat) (m0 : Mem) (ops : List Op) (d0 : Deque)
-    (h : (Deque.new confCap m0).2.1 = some d0) :
-    (runM d0 (Deque.new confCap m0).2.2 ops).2.1.size ≤ (runM d0 (Deque.new confCap m0).2.2 ops).2.1.cap ∧
-    (∃ k, (runM d0 (Deque.new confCap m0).2.2 ops).2.1.cap = 2 ^ k) ∧
-    (runM d0 (Deque.new confCap m0).2.2 ops).2.1.cap ≤ (runM d0 (Deque.new confCap m0).2.2 ops).2.1.buf.length := by
-  rcases Deque.new_spec confCap m0 with ⟨_, d, n2, n3, _⟩ | ⟨_, n2, _⟩
+deque of any configured capacity, on either triple -/
+theorem reachable_invariants (confCap : Nat) (t : Triple) (m0 : Mem) (ops : List Op) (d0 : Deque)
+    (h : (Deque.new confCap t m0).2.1 = some d0) :
+    (runM d0 (Deque.new confCap t m0).2.2 ops).2.1.size ≤ (runM d0 (Deque.new confCap t m0).2.2 ops).2.1.cap ∧
+    (∃ k, (runM d0 (Deque.new confCap t m0).2.2 ops).2.1.cap = 2 ^ k) ∧
+    (runM d0 (Deque.new confCap t m0).2.2 ops).2.1.buf.length = (runM d0 (Deque.new confCap t m0).2.2 ops).2.1.cap := by
+  rcases Deque.new_spec confCap t m0 with ⟨_, d, n2, n3, _⟩ | ⟨_, n2, _⟩
   · rw [n2] at h
     cases h
-    obtain ⟨hinv, _, _⟩ := C06Deque.history_nofault ops d0 (Deque.new confCap m0).2.2 n3
+    obtain ⟨hinv, _, _⟩ := C06Deque.history_nofault ops d0 (Deque.new confCap t m0).2.2 n3
     exact ⟨hinv.2.2.2.2.2, hinv.pow2, hinv.2.2.1⟩
   · rw [n2] at h; cases h
 
@@ -44,9 +44,10 @@ theorem growth_strict (d : Deque) (m : Mem) (hi : d.Inv) (h : (d.expandCapacity 
   have := hi.cap_pos
   exact ⟨by omega, e4, e2, e1⟩
 
-/-- hence, with an allocator that does not refuse and below the capacity limit, every insertion at an
+/-- hence, with an allocator that does not refuse (C-library triple, or exhausted schedule) and below the capacity limit, every insertion at an
 end returns `CC_OK`; the capacity is kept, or doubled when the deque was full -/
-theorem append_ok (d : Deque) (x : Nat) (m : Mem) (hi : d.Inv) (hs : m.sched = []) (hb : d.size < Gen.MAX_POW_TWO) :
+theorem append_ok (d : Deque) (x : Nat) (m : Mem) (hi : d.Inv) (hs : Deque.neverRefuses d.triple m)
+    (hb : d.size < Gen.MAX_POW_TWO) :
     (d.addLast x m).1 = .ok ∧ (d.addFirst x m).1 = .ok ∧
     (d.addLast x m).2.1.cap = (if d.size = d.cap then 2 * d.cap else d.cap) ∧
     (d.addFirst x m).2.1.cap = (if d.size = d.cap then 2 * d.cap else d.cap) := by
@@ -71,26 +72,39 @@ theorem trim_minimum (d : Deque) (m : Mem) (hi : d.Inv) (h : (d.trimCapacity m).
   · rw [a1] at h; exact absurd h (by decide)
 
 /-- the constructor rounds every configured capacity up to the next power of two -/
-theorem constructed_capacity (confCap : Nat) (m : Mem) (d : Deque) (h : (Deque.new confCap m).2.1 = some d) :
+theorem constructed_capacity (confCap : Nat) (t : Triple) (m : Mem) (d : Deque) (h : (Deque.new confCap t m).2.1 = some d) :
     d.cap = Deque.upperPow2 confCap ∧ (∃ k, d.cap = 2 ^ k) ∧ (confCap ≤ Gen.MAX_POW_TWO → confCap ≤ d.cap) := by
-  rcases Deque.new_spec confCap m with ⟨_, d', n2, n3, _, n5, _⟩ | ⟨_, n2, _⟩
+  rcases Deque.new_spec confCap t m with ⟨_, d', n2, n3, _, n5, _⟩ | ⟨_, n2, _⟩
   · rw [n2] at h
     cases h
     exact ⟨n5, n3.pow2, fun hc => by rw [n5]; exact Deque.upperPow2_ge confCap hc⟩
   · rw [n2] at h; cases h
 
-/-- **appends_realloc_log**: the deque's allocation behaviour *is* the abstract doubling process
-`Growth.appends` with `grow c = 2 * c` (`capacity << 1`): after any run of `n` insertions at the two ends
-the size, the capacity and the number of allocator calls are those of `Growth.appends`, hence at most
-`log2 (size + n) + 1` buffer allocations — amortised constant time per insertion -/
-theorem appends_realloc_log (l : List (Bool × Nat)) (d : Deque) (m : Mem) (hi : d.Inv) (hs : m.sched = [])
-    (hb : d.size + l.length ≤ Gen.MAX_POW_TWO) :
+/-- **appends_realloc_log, every refusal schedule**: any run of `n` insertions at the two ends of a deque
+holding `size` elements — whatever the initial capacity, the ring layout and the pattern of refused growth
+steps — performs at most `log2 (size + n) + 1` successful buffer allocations (counted on the deque's own
+triple): amortised constant time per insertion.  No hypothesis beyond the invariant. -/
+theorem appends_realloc_log (l : List (Bool × Nat)) (d : Deque) (m : Mem) (hi : d.Inv) :
+    Deque.allocsOf d.triple (Deque.pushAll d m l).2 - Deque.allocsOf d.triple m ≤ Nat.log2 (d.size + l.length) + 1 ∧
+    (Deque.pushAll d m l).1.Inv ∧ d.cap ≤ (Deque.pushAll d m l).1.cap :=
+  ⟨Deque.pushAll_realloc_le l d m hi, (Deque.pushAll_doubling l d m hi).1, (Deque.pushAll_doubling l d m hi).2.2.2.1⟩
+
+/-- **… and it is exactly the abstract doubling process** when nothing is refused: size, capacity and the
+number of allocator calls are those of `Growth.appends` with `grow c = 2 * c` (`capacity << 1`) -/
+theorem appends_is_growth_process (l : List (Bool × Nat)) (d : Deque) (m : Mem) (hi : d.Inv)
+    (hn : Deque.neverRefuses d.triple m) (hb : d.size + l.length ≤ Gen.MAX_POW_TWO) :
     (Deque.pushAll d m l).1.cap = (Growth.appends Deque.dbl d.size d.cap l.length).cap ∧
-    (Deque.pushAll d m l).2.nalloc - m.nalloc = (Growth.appends Deque.dbl d.size d.cap l.length).reallocs ∧
-    (Deque.pushAll d m l).2.nalloc - m.nalloc ≤ Nat.log2 (d.size + l.length) + 1 ∧
+    Deque.allocsOf d.triple (Deque.pushAll d m l).2 =
+      Deque.allocsOf d.triple m + (Growth.appends Deque.dbl d.size d.cap l.length).reallocs ∧
     (Deque.pushAll d m l).1.abs = Deque.pushAllSpec d.abs l ∧ (Deque.pushAll d m l).1.Inv := by
-  obtain ⟨r1, r2, _, r4, r5, _⟩ := Deque.pushAll_growth l d m hi hs hb
-  exact ⟨r4, by omega, Deque.pushAll_realloc_log l d m hi hs hb, r2, r1⟩
+  obtain ⟨r1, r2, _, r4, r5⟩ := Deque.pushAll_growth l d m hi hn hb
+  exact ⟨r4, r5, r2, r1⟩
+
+/-- the hypothesis bundle of `appends_is_growth_process` is satisfiable, and the doubling function meets
+`Growth`'s requirement -/
+example : (Deque.mk 3 4 2 1 [13, 0, 11, 12] .conf).Inv ∧ Deque.neverRefuses Triple.conf ({} : Mem) ∧
+    3 + 5 ≤ Gen.MAX_POW_TWO ∧ (∀ c, 2 * c ≤ Deque.dbl c) :=
+  ⟨by decide, Or.inr rfl, by decide, fun _ => Nat.le_refl _⟩
 
 /-- non-vacuity: 1000 appends to a capacity-1 deque cost at most 10 allocations -/
 example : Nat.log2 (0 + 1000) + 1 = 10 := by decide
